@@ -1,571 +1,254 @@
-import RsslVerif.Model.CondChain
-import RsslVerif.Lemmas.CondExpr
+import RsslVerif.Model.Progress
 /-!
-# Lemmas for C11, part 1: the stack automaton refines tree-shaped selection
+# Invariants of the `ConditionChain` model (C08)
 
-`flatten` writes a `Spec.CPre` tree as the list of lines the model consumes.  The mutual induction
-`Item.refines / Items.refines / Chain.refines` shows that running the automaton over the lines of a
-sub-tree, from any stack, has exactly the effect the reference semantics prescribes, where the top of the
-stack encodes "has a group of this if-section been taken" (`CS.taken`) and the rest of the stack encodes
-"is the if-section processed" (`active`).
+`Inv`: `self.1 ≤ self.0.len()` — what keeps the slice `&mut self.0[self.1..]` of `switch` in range.
+`Keeps c c'`: a step / a run of lines leaves `self.1` alone, keeps the invariant, and does not touch the blocks of
+the including files (the bottom `self.1` entries of the vector).  `step_keeps` / `run_keeps` prove both for every
+directive tree by mutual structural recursion; `run_shape` relates a run of a plain file (no `#include`, no
+malformed directive line) to the shape specification `shapeSpec`.
 -/
 namespace RsslVerif.Lemmas.CondChain
-open RsslVerif.Gen.CondTables RsslVerif.Model.CondExpr RsslVerif.Model.CondChain
-open RsslVerif.Spec.CPre RsslVerif.Lemmas.CondExpr
+open RsslVerif.Model.Progress
 
-deriving instance DecidableEq for Except
+/-- the blocks of the including files: the bottom `n` entries of the vector (the head is the top) -/
+def bottom (n : Nat) (l : List Block) : List Block := l.drop (l.length - n)
 
-/-! ### the generated tables, cell by cell -/
+theorem bottom_cons (n : Nat) (x : Block) (l : List Block) (h : n ≤ l.length) : bottom n (x :: l) = bottom n l := by
+  unfold bottom
+  have : (x :: l).length - n = (l.length - n) + 1 := by simp only [List.length_cons]; omega
+  rw [this, List.drop_succ_cons]
 
-theorem switch_table :
-    (∀ b, CS.switch .Enabled b = .DisabledOuter) ∧
-    (CS.switch .DisabledInner true = .Enabled) ∧ (CS.switch .DisabledInner false = .DisabledInner) ∧
-    (∀ b, CS.switch .DisabledOuter b = .DisabledOuter) := by decide
+theorem bottom_all (l : List Block) : bottom l.length l = l := by
+  unfold bottom; simp
 
-@[simp] theorem switch_en (b : Bool) : CS.switch .Enabled b = .DisabledOuter := by cases b <;> rfl
-@[simp] theorem switch_di_t : CS.switch .DisabledInner true = .Enabled := rfl
-@[simp] theorem switch_di_f : CS.switch .DisabledInner false = .DisabledInner := rfl
-@[simp] theorem switch_do (b : Bool) : CS.switch .DisabledOuter b = .DisabledOuter := by cases b <;> rfl
-@[simp] theorem pushState_t : pushState true = .Enabled := rfl
-@[simp] theorem pushState_f : pushState false = .DisabledInner := rfl
-@[simp] theorem activeState_eq : activeState = .Enabled := rfl
-@[simp] theorem elseSwitchArg_eq : elseSwitchArg = true := rfl
-@[simp] theorem switchEmptyErr_eq : switchEmptyErr = .ElseNotMatched := rfl
-@[simp] theorem popEmptyErr_eq : popEmptyErr = .EndIfNotMatched := rfl
-@[simp] theorem unfinishedErr_eq : unfinishedErr = .ConditionChainNotFinished := rfl
+def Inv (c : Chain) : Prop := c.base ≤ c.blocks.length
 
-@[simp] theorem gate_if : gate "if" = .skipPushes .DisabledInner := by decide
-@[simp] theorem gate_ifdef : gate "ifdef" = .skipPushes .DisabledInner := by decide
-@[simp] theorem gate_ifndef : gate "ifndef" = .skipPushes .DisabledInner := by decide
-@[simp] theorem gate_elif : gate "elif" = .notGated := by decide
-@[simp] theorem gate_else : gate "else" = .notGated := by decide
-@[simp] theorem gate_endif : gate "endif" = .notGated := by decide
-@[simp] theorem gate_define : gate "define" = .skipNoEffect := by decide
-@[simp] theorem gate_undef : gate "undef" = .skipNoEffect := by decide
-@[simp] theorem gate_pragma : gate "pragma" = .skipNoEffect := by decide
-@[simp] theorem gate_include : gate "include" = .skipNoEffect := by decide
-@[simp] theorem gate_other : gate "frobnicate" = .skipNoEffect := by decide
+/-- what one step / one run keeps: `self.1`, the invariant, and the blocks of the including files -/
+def Keeps (c c' : Chain) : Prop :=
+  c'.base = c.base ∧ c.base ≤ c'.blocks.length ∧ bottom c.base c'.blocks = bottom c.base c.blocks
 
-@[simp] theorem en_beq_en : (CS.Enabled == CS.Enabled) = true := by decide
-@[simp] theorem di_beq_en : (CS.DisabledInner == CS.Enabled) = false := by decide
-@[simp] theorem do_beq_en : (CS.DisabledOuter == CS.Enabled) = false := by decide
+theorem Keeps.refl (c : Chain) (h : Inv c) : Keeps c c := ⟨rfl, h, rfl⟩
+theorem Keeps.trans {a b c : Chain} (h1 : Keeps a b) (h2 : Keeps b c) : Keeps a c := by
+  obtain ⟨b1, l1, e1⟩ := h1
+  obtain ⟨b2, l2, e2⟩ := h2
+  refine ⟨by rw [b2, b1], by rw [b1] at l2; exact l2, ?_⟩
+  rw [b1] at e2; rw [e2, e1]
 
-theorem active_cons (c : CS) (r : List CS) : active (c :: r) = ((c == .Enabled) && active r) := by
-  simp [active]
+theorem push_keeps (c : Chain) (s : CS) (h : Inv c) : Keeps c (c.push s) := by
+  refine ⟨rfl, ?_, ?_⟩
+  · simp only [Chain.push, List.length_cons]; unfold Inv at h; omega
+  · simp only [Chain.push]; exact bottom_cons _ _ _ h
 
-@[simp] theorem active_nil : active [] = true := rfl
+theorem switch_spec (c : Chain) (a e : Bool) (h : Inv c) :
+    c.switch a e ≠ .error .panicSlice ∧ ∀ c', c.switch a e = .ok c' → Keeps c c' := by
+  unfold Inv at h
+  unfold Chain.switch
+  have h1 : ¬ c.blocks.length < c.base := by omega
+  rw [if_neg h1]
+  by_cases h2 : c.blocks.length = c.base
+  · rw [if_pos h2]
+    exact ⟨by simp, fun c' h => by cases h⟩
+  · rw [if_neg h2]
+    cases hb : c.blocks with
+    | nil => exact ⟨by simp, fun c' h => by cases h⟩
+    | cons b rest =>
+      rw [hb] at h h2
+      simp only [List.length_cons] at h h2
+      simp only
+      by_cases hs : b.seenElse = true
+      · rw [if_pos hs]
+        refine ⟨?_, fun c' h => by cases h⟩
+        cases e <;> simp
+      · rw [if_neg hs]
+        refine ⟨by simp, ?_⟩
+        intro c' hc
+        simp only [Except.ok.injEq] at hc
+        subst hc
+        refine ⟨rfl, by simp only [List.length_cons]; omega, ?_⟩
+        simp only
+        rw [hb, bottom_cons _ _ _ (by omega), bottom_cons _ _ _ (by omega)]
 
-/-! ### one line -/
+theorem pop_spec (c : Chain) : ∀ c', c.pop = .ok c' → Keeps c c' := by
+  intro c' hc
+  unfold Chain.pop at hc
+  split at hc
+  · rename_i hlt
+    simp only [Except.ok.injEq] at hc
+    subst hc
+    cases hb : c.blocks with
+    | nil => rw [hb] at hlt; simp at hlt
+    | cons b rest =>
+      rw [hb] at hlt
+      simp only [List.length_cons] at hlt
+      refine ⟨rfl, by simp only [List.tail_cons]; omega, ?_⟩
+      simp only [hb, List.tail_cons]
+      rw [bottom_cons _ _ _ (by omega)]
+  · cases hc
 
-/-- a line met while some level is not active -/
-theorem step_inactive (cv) (ch : List CS) (m : Macros) (out : List (List CTok)) (h : active ch = false)
-    (d : Dir) :
-    step cv ⟨ch, m, out⟩ d = match d with
-      | .ifc _ | .ifdef _ _ => .ok ⟨.DisabledInner :: ch, m, out⟩
-      | .elif c => exec cv ⟨ch, m, out⟩ (.elif c)
-      | .els => exec cv ⟨ch, m, out⟩ .els
-      | .endif => exec cv ⟨ch, m, out⟩ .endif
-      | _ => .ok ⟨ch, m, out⟩ := by
-  cases d with
-  | ifdef neg n => cases neg <;> simp [step, Dir.command, h]
-  | _ => simp [step, Dir.command, h]
+theorem pop_ne_panic (c : Chain) : c.pop ≠ .error .panicSlice := by
+  unfold Chain.pop; split <;> simp
 
-/-- a line met while every level is active -/
-theorem step_active (cv) (ch : List CS) (m : Macros) (out : List (List CTok)) (h : active ch = true)
-    (d : Dir) :
-    step cv ⟨ch, m, out⟩ d = exec cv ⟨ch, m, out⟩ d := by
-  cases d with
-  | ifdef neg n => cases neg <;> simp [step, Dir.command, h]
-  | _ => simp [step, Dir.command, h]
-
-theorem run_append (cv) (s : St) (a b : List Dir) :
-    run cv s (a ++ b) = match run cv s a with
-      | .ok s' => run cv s' b
-      | .error e => .error e := by
-  induction a generalizing s with
-  | nil => simp [run]
-  | cons d ds ih =>
-    simp only [List.cons_append, run]
-    cases step cv s d with
-    | ok s' => simp [ih]
-    | error e => simp
-
-/-! ### trees as line lists -/
-
-def plainDir : Plain → Dir
-  | .text t => .text t
-  | .define n b => .define n b
-  | .undef n => .undef n
-  | .pragma .once => .pragma .once
-  | .pragma .warning => .pragma .warning
-  | .pragma .unknown => .pragma .unknown
-  | .incl f => .incl f
-  | .unknown => .unknown
-
-def headDir : Head → Dir
-  | .ifc c => .ifc c
-  | .ifdef n => .ifdef false n
-  | .ifndef n => .ifdef true n
+theorem Keeps.inv {c c' : Chain} (h : Keeps c c') : Inv c' := by
+  unfold Inv; rw [h.1]; exact h.2.1
 
 mutual
-def flattenItem : Item → List Dir
-  | .plain p => [plainDir p]
-  | .cond h body rest => headDir h :: (flattenItems body ++ flattenChain rest)
-def flattenItems : Items → List Dir
-  | .nil => []
-  | .cons i is => flattenItem i ++ flattenItems is
-def flattenChain : Chain → List Dir
-  | .endif => [.endif]
-  | .els body => .els :: (flattenItems body ++ [.endif])
-  | .elif c body rest => .elif c :: (flattenItems body ++ flattenChain rest)
+theorem step_keeps : ∀ (d : Dir) (c : Chain), Inv c →
+    step c d ≠ .error .panicSlice ∧ ∀ c' o, step c d = .ok (c', o) → Keeps c c'
+  | .ifD a, c, h => by
+    unfold step
+    split
+    · refine ⟨by simp, ?_⟩
+      intro c' o hc
+      simp only [Except.ok.injEq, Prod.mk.injEq] at hc
+      rw [← hc.1]; exact push_keeps _ _ h
+    · refine ⟨by simp, ?_⟩
+      intro c' o hc
+      simp only [Except.ok.injEq, Prod.mk.injEq] at hc
+      rw [← hc.1]; exact push_keeps _ _ h
+  | .elif a, c, h => by
+    unfold step
+    have hs := switch_spec c a false h
+    cases hsw : c.switch a false with
+    | error e => exact ⟨by rw [hsw] at hs; simpa using hs.1, fun c' o hc => by cases hc⟩
+    | ok c1 =>
+      refine ⟨by simp, ?_⟩
+      intro c' o hc
+      simp only [Except.ok.injEq, Prod.mk.injEq] at hc
+      rw [← hc.1]; exact hs.2 c1 hsw
+  | .els, c, h => by
+    unfold step
+    have hs := switch_spec c true true h
+    cases hsw : c.switch true true with
+    | error e => exact ⟨by rw [hsw] at hs; simpa using hs.1, fun c' o hc => by cases hc⟩
+    | ok c1 =>
+      refine ⟨by simp, ?_⟩
+      intro c' o hc
+      simp only [Except.ok.injEq, Prod.mk.injEq] at hc
+      rw [← hc.1]; exact hs.2 c1 hsw
+  | .endif, c, h => by
+    unfold step
+    have hp := pop_ne_panic c
+    cases hsw : c.pop with
+    | error e => exact ⟨by rw [hsw] at hp; simpa using hp, fun c' o hc => by cases hc⟩
+    | ok c1 =>
+      refine ⟨by simp, ?_⟩
+      intro c' o hc
+      simp only [Except.ok.injEq, Prod.mk.injEq] at hc
+      rw [← hc.1]; exact pop_spec c c1 hsw
+  | .text id, c, h => by
+    unfold step
+    refine ⟨by simp, ?_⟩
+    intro c' o hc
+    simp only [Except.ok.injEq, Prod.mk.injEq] at hc
+    rw [← hc.1]; exact Keeps.refl c h
+  | .junk, c, h => by
+    unfold step
+    split
+    · exact ⟨by simp, fun c' o hc => by cases hc⟩
+    · refine ⟨by simp, ?_⟩
+      intro c' o hc
+      simp only [Except.ok.injEq, Prod.mk.injEq] at hc
+      rw [← hc.1]; exact Keeps.refl c h
+  | .incl f, c, h => by
+    unfold step
+    split
+    · have hi : Inv { c with base := c.blocks.length } := Nat.le_refl _
+      have ih := run_keeps f { c with base := c.blocks.length } [] hi
+      cases hr : run f { c with base := c.blocks.length } [] with
+      | error e => exact ⟨by rw [hr] at ih; simpa using ih.1, fun c' o hc => by cases hc⟩
+      | ok w =>
+        obtain ⟨c2, o2⟩ := w
+        simp only
+        split
+        · exact ⟨by simp, fun c' o hc => by cases hc⟩
+        · rename_i hlen
+          refine ⟨by simp, ?_⟩
+          intro c' o hc
+          simp only [Except.ok.injEq, Prod.mk.injEq] at hc
+          rw [← hc.1]
+          obtain ⟨hb, _, hbot⟩ := ih.2 c2 o2 hr
+          simp only at hb hbot
+          have hl : c2.blocks.length = c.blocks.length := by
+            have : c2.blocks.length = c2.base := by
+              simpa using hlen
+            rw [this, hb]
+          have heq : c2.blocks = c.blocks := by
+            rw [← hl, bottom_all, hl, bottom_all] at hbot
+            exact hbot
+          refine ⟨rfl, ?_, ?_⟩
+          · simp only; rw [hl]; exact h
+          · simp only; rw [heq]
+    · refine ⟨by simp, ?_⟩
+      intro c' o hc
+      simp only [Except.ok.injEq, Prod.mk.injEq] at hc
+      rw [← hc.1]; exact Keeps.refl c h
+theorem run_keeps : ∀ (f : Lines) (c : Chain) (out : List Nat), Inv c →
+    run f c out ≠ .error .panicSlice ∧ ∀ c' o, run f c out = .ok (c', o) → Keeps c c'
+  | .nil, c, out, h => by
+    unfold run
+    refine ⟨by simp, ?_⟩
+    intro c' o hc
+    simp only [Except.ok.injEq, Prod.mk.injEq] at hc
+    rw [← hc.1]; exact Keeps.refl c h
+  | .cons d ds, c, out, h => by
+    unfold run
+    have hs := step_keeps d c h
+    cases hst : step c d with
+    | error e => exact ⟨by rw [hst] at hs; simpa using hs.1, fun c' o hc => by cases hc⟩
+    | ok w =>
+      obtain ⟨c1, o1⟩ := w
+      simp only
+      have k1 := hs.2 c1 o1 hst
+      have ih := run_keeps ds c1 (out ++ o1) k1.inv
+      exact ⟨ih.1, fun c' o hc => k1.trans (ih.2 c' o hc)⟩
 end
 
-/-- a condition has a value in every macro table satisfying `Inv` -/
-def TotalOn (Inv : Macros → Prop) (cv : Macros → List CTok → Except CondErr Bool) (c : List CTok) : Prop :=
-  ∀ m, Inv m → ∃ b, cv m c = .ok b
+def elses (c : Chain) : List Bool := c.blocks.map (·.seenElse)
 
-/-- a condition has a value in every macro table -/
-def Total (cv : Macros → List CTok → Except CondErr Bool) (c : List CTok) : Prop :=
-  TotalOn (fun _ => True) cv c
-
-/-! "Well-formed conditions", relative to an invariant `Inv` of the macro table: every `#define/#undef`
-    of the tree preserves `Inv`, and every `#elif` condition of the tree has a value in every macro table
-    satisfying `Inv`.  (The code evaluates `#elif` conditions even in groups C never looks at — see
-    `Thm.C11.dead_elif_is_evaluated` — so *all* `#elif` conditions are constrained, not only the ones C
-    evaluates; `#if` conditions are not constrained at all.) -/
-mutual
-def ItemWF (Inv : Macros → Prop) (cv : Macros → List CTok → Except CondErr Bool) : Item → Prop
-  | .plain (.define n b) => ∀ m, Inv m → Inv (Macros.define m n b)
-  | .plain (.undef n) => ∀ m, Inv m → Inv (Macros.undef m n)
-  | .plain _ => True
-  | .cond _ body rest => ItemsWF Inv cv body ∧ ChainWF Inv cv rest
-def ItemsWF (Inv : Macros → Prop) (cv : Macros → List CTok → Except CondErr Bool) : Items → Prop
-  | .nil => True
-  | .cons i is => ItemWF Inv cv i ∧ ItemsWF Inv cv is
-def ChainWF (Inv : Macros → Prop) (cv : Macros → List CTok → Except CondErr Bool) : Chain → Prop
-  | .endif => True
-  | .els body => ItemsWF Inv cv body
-  | .elif c body rest => TotalOn Inv cv c ∧ ItemsWF Inv cv body ∧ ChainWF Inv cv rest
-end
-
-/-- rejection reasons of the reference as `PreprocessError` variants -/
-def toErr : Reject CondErr → Err
-  | .cond e => .cond e
-  | .unknownPragma => .UnknownPragma
-  | .unknownDirective => .UnknownCommand
-  | .missingInclude => .FailedToFindFile
-
-/-- continue the automaton from the state the reference prescribes -/
-def andThen (cv : Macros → List CTok → Except CondErr Bool) (ch : List CS) (rest : List Dir) : Except (Reject CondErr) (Env × Out) → Except Err St
-  | .ok s' => run cv ⟨ch, s'.1, s'.2⟩ rest
-  | .error e => .error (toErr e)
-
-/-- what the top of the stack says about its if-section: has a group been taken already? -/
-def taken : CS → Bool
-  | .DisabledInner => false
-  | _ => true
-
-/-! ### the macro table and text expansion of the model are the reference ones -/
-
-theorem lookup_filter (m : Env) (n x : String) :
-    Env.lookup (m.filter (fun e => e.1 != n)) x = if x = n then none else Env.lookup m x := by
-  induction m with
-  | nil => simp [Env.lookup]
-  | cons e r ih =>
-    by_cases hen : e.1 = n
-    · simp only [List.filter_cons, hen, bne_self_eq_false, Bool.false_eq_true, if_false, ih, Env.lookup]
-      by_cases hx : x = n
-      · simp [hx]
-      · have : (n == x) = false := by simp [Ne.symm hx]
-        simp [hx, this]
-    · have : (e.1 != n) = true := by simp [hen]
-      simp only [List.filter_cons, this, if_true, Env.lookup, ih]
-      by_cases hx : x = n
-      · simp [hx, hen]
-      · simp [hx]
-
-theorem lookup_append_single (m : Env) (n x : String) (b : List CTok) :
-    Env.lookup (m ++ [(n, b)]) x = match Env.lookup m x with
-      | some body => some body
-      | none => if n = x then some b else none := by
-  induction m with
-  | nil => simp [Env.lookup]
-  | cons e r ih =>
-    simp only [List.cons_append, Env.lookup, ih]
-    by_cases h : (e.1 == x) = true <;> simp [h]
-
-theorem define_eq (m : Macros) (n b) : Macros.define m n b = Env.define m n b := rfl
-theorem undef_eq (m : Macros) (n) : Macros.undef m n = Env.undef m n := rfl
-
-theorem subst_id_false (m : Macros) (x : String) (r : List CTok) :
-    subst m false (.Id x :: r) = match m.lookup x with
-      | some body => (subst m false r).map (fun r => body ++ r)
-      | none => (subst m false r).map (fun r => .Id x :: r) := by
-  rw [subst.eq_def]; simp; cases m.lookup x <;> rfl
-
-theorem subst_false (m : Macros) (toks : List CTok) :
-    subst m false toks = .ok (Env.expand m toks) := by
-  induction toks with
-  | nil => rfl
-  | cons t r ih =>
-    have hexp : Env.expand m (t :: r) =
-        (match t with | .Id x => (Env.lookup m x).getD [t] | t => [t]) ++ Env.expand m r := by
-      unfold Env.expand; rw [List.flatMap_cons]; rfl
-    rw [hexp]
-    cases t with
-    | Id x =>
-      rw [subst_id_false, ih, lookup_eq]
-      cases h : Env.lookup m x <;> simp [Except.map, h]
-    | _ => simp [subst, ih, Except.map]
-
-theorem expandText_eq (m : Macros) (toks : List CTok) : expandText m toks = Env.expand m toks := by
-  simp [expandText, subst_false]
-
-/-! ### nothing happens inside an unprocessed group (reference side) -/
-
-mutual
-theorem Items.sel_false {ε} (cv : Env → List CTok → Except ε Bool) :
-    ∀ (is : Items) (s : Env × Out), is.sel cv false s = .ok s
-  | .nil, s => by simp [Items.sel]
-  | .cons i is, s => by
-    have hi : i.sel cv false s = .ok s := by cases i <;> simp [Item.sel]
-    simp [Items.sel, hi, Items.sel_false cv is s]
-end
-
-theorem Chain.sel_false {ε} (cv : Env → List CTok → Except ε Bool) :
-    ∀ (c : Chain) (t : Bool) (s : Env × Out), c.sel cv false t s = .ok s
-  | .endif, _, _ => by simp [Chain.sel]
-  | .els body, _, s => by simp [Chain.sel, Items.sel_false]
-  | .elif c body rest, t, s => by simp [Chain.sel, Chain.sel_false cv rest]
-
-/-! ### the refinement -/
-
-theorem exec_plain_active (cv) (ch : List CS) (m : Macros) (out : Out) (p : Plain) :
-    exec cv ⟨ch, m, out⟩ (plainDir p) =
-      match (p.apply (m, out) : Except (Reject CondErr) (Env × Out)) with
-      | .ok s' => .ok ⟨ch, s'.1, s'.2⟩
-      | .error e => .error (toErr e) := by
-  cases p with
-  | pragma k => cases k <;> simp [plainDir, exec, Plain.apply, toErr]
-  | incl f => cases f <;> simp [plainDir, exec, Plain.apply, toErr, expandText_eq]
-  | _ => simp [plainDir, exec, Plain.apply, toErr, expandText_eq, define_eq, undef_eq]
-
-theorem step_head_inactive (cv) (ch m out) (h : Head) (ha : active ch = false) :
-    step cv ⟨ch, m, out⟩ (headDir h) = .ok ⟨.DisabledInner :: ch, m, out⟩ := by
-  cases h <;> simp [headDir, step_inactive cv _ _ _ ha]
-
-theorem step_head_active (cv) (ch m out) (h : Head) (ha : active ch = true) :
-    step cv ⟨ch, m, out⟩ (headDir h) =
-      match (h.value cv m : Except (Reject CondErr) Bool) with
-      | .ok b => .ok ⟨pushState b :: ch, m, out⟩
-      | .error e => .error (toErr e) := by
-  cases h with
-  | ifc c =>
-    simp only [headDir, step_active cv _ _ _ ha, exec, Head.value]
-    cases cv m c <;> simp [toErr]
-  | ifdef n => simp [headDir, step_active cv _ _ _ ha, exec, Head.value, isDefined_eq]
-  | ifndef n => simp [headDir, step_active cv _ _ _ ha, exec, Head.value, isDefined_eq]
-
-theorem step_endif (cv) (top : CS) (r : List CS) (m out) :
-    step cv ⟨top :: r, m, out⟩ .endif = .ok ⟨r, m, out⟩ := by
-  cases ha : active (top :: r)
-  · rw [step_inactive cv _ _ _ ha]; rfl
-  · rw [step_active cv _ _ _ ha]; rfl
-
-theorem step_els (cv) (top : CS) (r : List CS) (m out) :
-    step cv ⟨top :: r, m, out⟩ .els = .ok ⟨top.switch true :: r, m, out⟩ := by
-  cases ha : active (top :: r)
-  · rw [step_inactive cv _ _ _ ha]; rfl
-  · rw [step_active cv _ _ _ ha]; rfl
-
-theorem step_elif (cv) (top : CS) (r : List CS) (m out) (c : List CTok) (b : Bool) (hb : cv m c = .ok b) :
-    step cv ⟨top :: r, m, out⟩ (.elif c) = .ok ⟨top.switch b :: r, m, out⟩ := by
-  cases ha : active (top :: r)
-  · rw [step_inactive cv _ _ _ ha]; simp [exec, hb]
-  · rw [step_active cv _ _ _ ha]; simp [exec, hb]
-
-/-- processing a well-formed tree keeps the macro-table invariant -/
-theorem Plain.apply_inv (Inv : Macros → Prop) (cv) (p : Plain) (h : ItemWF Inv cv (.plain p))
-    (m : Macros) (out : Out) (s' : Env × Out) (hm : Inv m)
-    (hs : (p.apply (m, out) : Except (Reject CondErr) (Env × Out)) = .ok s') : Inv s'.1 := by
-  cases p with
-  | define n b => simp only [Plain.apply, Except.ok.injEq] at hs; subst hs; exact h m hm
-  | undef n => simp only [Plain.apply, Except.ok.injEq] at hs; subst hs; exact h m hm
-  | text t => simp only [Plain.apply, Except.ok.injEq] at hs; subst hs; exact hm
-  | pragma k => cases k <;> simp [Plain.apply] at hs <;> (subst hs; exact hm)
-  | incl f => cases f <;> simp [Plain.apply] at hs; subst hs; exact hm
-  | unknown => simp [Plain.apply] at hs
-
-mutual
-theorem Item.sel_inv (Inv : Macros → Prop) (cv) : ∀ (i : Item), ItemWF Inv cv i → ∀ (act : Bool) (m : Macros)
-    (out : Out) (s' : Env × Out), Inv m → i.sel cv act (m, out) = .ok s' → Inv s'.1
-  | .plain p, h, act, m, out, s', hm, hs => by
-    cases act
-    · simp only [Item.sel, Bool.false_eq_true, if_false, Except.ok.injEq] at hs; subst hs; exact hm
-    · simp only [Item.sel, if_true] at hs
-      exact Plain.apply_inv Inv cv p h m out s' hm hs
-  | .cond h body chain, ⟨hb, hc⟩, act, m, out, s', hm, hs => by
-    cases act
-    · simp only [Item.sel, Bool.false_eq_true, if_false, Except.ok.injEq] at hs; subst hs; exact hm
-    · simp only [Item.sel, if_true] at hs
-      cases hv : (h.value cv m : Except (Reject CondErr) Bool) with
-      | error e => simp [hv] at hs
-      | ok b =>
-        simp only [hv] at hs
-        cases hs1 : body.sel cv b (m, out) with
-        | error e => simp [hs1] at hs
-        | ok s1 =>
-          simp only [hs1] at hs
-          have h1 := Items.sel_inv Inv cv body hb b m out s1 hm hs1
-          exact Chain.sel_inv Inv cv chain hc true b s1.1 s1.2 s' h1 hs
-theorem Items.sel_inv (Inv : Macros → Prop) (cv) : ∀ (is : Items), ItemsWF Inv cv is → ∀ (act : Bool)
-    (m : Macros) (out : Out) (s' : Env × Out), Inv m → is.sel cv act (m, out) = .ok s' → Inv s'.1
-  | .nil, _, act, m, out, s', hm, hs => by
-    simp only [Items.sel, Except.ok.injEq] at hs; subst hs; exact hm
-  | .cons i is, ⟨hi, his⟩, act, m, out, s', hm, hs => by
-    simp only [Items.sel] at hs
-    cases hs1 : i.sel cv act (m, out) with
-    | error e => simp [hs1] at hs
-    | ok s1 =>
-      simp only [hs1] at hs
-      have h1 := Item.sel_inv Inv cv i hi act m out s1 hm hs1
-      exact Items.sel_inv Inv cv is his act s1.1 s1.2 s' h1 hs
-theorem Chain.sel_inv (Inv : Macros → Prop) (cv) : ∀ (c : Chain), ChainWF Inv cv c → ∀ (act taken : Bool)
-    (m : Macros) (out : Out) (s' : Env × Out), Inv m → c.sel cv act taken (m, out) = .ok s' → Inv s'.1
-  | .endif, _, act, tk, m, out, s', hm, hs => by
-    simp only [Chain.sel, Except.ok.injEq] at hs; subst hs; exact hm
-  | .els body, hb, act, tk, m, out, s', hm, hs => by
-    simp only [Chain.sel] at hs
-    exact Items.sel_inv Inv cv body hb _ m out s' hm hs
-  | .elif c body chain, ⟨hc, hb, hch⟩, act, tk, m, out, s', hm, hs => by
-    simp only [Chain.sel] at hs
-    by_cases hat : (act && !tk) = true
-    · simp only [hat, if_true] at hs
-      cases hcv : cv m c with
-      | error e => simp [hcv] at hs
-      | ok b =>
-        simp only [hcv] at hs
-        cases hs1 : body.sel cv b (m, out) with
-        | error e => simp [hs1] at hs
-        | ok s1 =>
-          simp only [hs1] at hs
-          have h1 := Items.sel_inv Inv cv body hb b m out s1 hm hs1
-          exact Chain.sel_inv Inv cv chain hch act b s1.1 s1.2 s' h1 hs
-    · simp only [hat] at hs
-      exact Chain.sel_inv Inv cv chain hch act tk m out s' hm hs
-end
-
-mutual
-theorem Item.refines (Inv : Macros → Prop) (cv) : ∀ (i : Item), ItemWF Inv cv i → ∀ (ch : List CS)
-    (m : Macros) (out : Out) (rest : List Dir), Inv m →
-    run cv ⟨ch, m, out⟩ (flattenItem i ++ rest) = andThen cv ch rest (i.sel cv (active ch) (m, out))
-  | .plain p, _, ch, m, out, rest, _ => by
-    simp only [flattenItem, List.cons_append, List.nil_append, run]
-    cases ha : active ch
-    · have : step cv ⟨ch, m, out⟩ (plainDir p) = .ok ⟨ch, m, out⟩ := by
-        rw [step_inactive cv _ _ _ ha]
-        cases p with
-        | pragma k => cases k <;> rfl
-        | _ => rfl
-      simp [this, Item.sel, andThen]
-    · rw [step_active cv _ _ _ ha, exec_plain_active]
-      simp only [Item.sel, if_true]
-      cases (p.apply (m, out) : Except (Reject CondErr) (Env × Out)) <;> simp [andThen]
-  | .cond h body chain, ⟨hb, hc⟩, ch, m, out, rest, hm => by
-    simp only [flattenItem, List.cons_append, run, List.append_assoc]
-    cases ha : active ch
-    · rw [step_head_inactive cv ch m out h ha]
-      simp only []
-      rw [Items.refines Inv cv body hb _ _ _ _ hm]
-      have h1 : active (CS.DisabledInner :: ch) = false := by simp [active_cons]
-      rw [h1, Items.sel_false]
-      simp only [andThen]
-      rw [Chain.refines Inv cv chain hc _ _ _ _ _ hm, ha, Chain.sel_false]
-      simp [Item.sel, andThen]
-    · rw [step_head_active cv ch m out h ha]
-      simp only [Item.sel, if_true]
-      cases hv : (h.value cv m : Except (Reject CondErr) Bool) with
-      | error e => simp [andThen]
-      | ok b =>
-        simp only []
-        rw [Items.refines Inv cv body hb _ _ _ _ hm]
-        have h1 : active (pushState b :: ch) = b := by cases b <;> simp [active_cons, ha]
-        rw [h1]
-        cases hs : body.sel cv b (m, out) with
-        | error e => simp [andThen]
-        | ok s' =>
-          have hm' := Items.sel_inv Inv cv body hb b m out s' hm hs
-          simp only [andThen]
-          rw [Chain.refines Inv cv chain hc _ _ _ _ _ hm', ha]
-          cases b <;> simp [taken, andThen]
-theorem Items.refines (Inv : Macros → Prop) (cv) : ∀ (is : Items), ItemsWF Inv cv is → ∀ (ch : List CS)
-    (m : Macros) (out : Out) (rest : List Dir), Inv m →
-    run cv ⟨ch, m, out⟩ (flattenItems is ++ rest) = andThen cv ch rest (is.sel cv (active ch) (m, out))
-  | .nil, _, ch, m, out, rest, _ => by simp [flattenItems, Items.sel, andThen]
-  | .cons i is, ⟨hi, his⟩, ch, m, out, rest, hm => by
-    simp only [flattenItems, List.append_assoc]
-    rw [Item.refines Inv cv i hi _ _ _ _ hm]
-    simp only [Items.sel]
-    cases hs : i.sel cv (active ch) (m, out) with
-    | error e => simp [andThen]
-    | ok s' =>
-      have hm' := Item.sel_inv Inv cv i hi _ m out s' hm hs
-      simp only [andThen]; rw [Items.refines Inv cv is his _ _ _ _ hm']; simp [andThen]
-theorem Chain.refines (Inv : Macros → Prop) (cv) : ∀ (c : Chain), ChainWF Inv cv c → ∀ (top : CS)
-    (r : List CS) (m : Macros) (out : Out) (rest : List Dir), Inv m →
-    run cv ⟨top :: r, m, out⟩ (flattenChain c ++ rest) =
-      andThen cv r rest (c.sel cv (active r) (taken top) (m, out))
-  | .endif, _, top, r, m, out, rest, _ => by
-    simp [flattenChain, run, step_endif, Chain.sel, andThen]
-  | .els body, hb, top, r, m, out, rest, hm => by
-    simp only [flattenChain, List.cons_append, run, step_els, List.append_assoc]
-    rw [Items.refines Inv cv body hb _ _ _ _ hm]
-    have h1 : active (top.switch true :: r) = (active r && !taken top) := by
-      cases top <;> simp [active_cons, taken]
-    rw [h1]
-    simp only [Chain.sel]
-    cases body.sel cv (active r && !taken top) (m, out) with
-    | error e => simp [andThen]
-    | ok s' => simp [andThen, run, step_endif]
-  | .elif c body chain, ⟨hc, hb, hch⟩, top, r, m, out, rest, hm => by
-    obtain ⟨b, hcv⟩ := hc m hm
-    simp only [flattenChain, List.cons_append, run, step_elif cv top r m out c b hcv, List.append_assoc]
-    rw [Items.refines Inv cv body hb _ _ _ _ hm]
-    simp only [Chain.sel]
-    cases top with
-    | DisabledInner =>
-      cases har : active r
-      · simp only [active_cons, har, Bool.and_false, Items.sel_false, andThen]
-        rw [Chain.refines Inv cv chain hch _ _ _ _ _ hm, har]
-        simp [Chain.sel_false, andThen]
-      · have h1 : active (CS.switch .DisabledInner b :: r) = b := by cases b <;> simp [active_cons, har]
-        rw [h1]
-        simp only [taken, Bool.not_false, Bool.and_self, if_true, hcv]
-        cases hs : body.sel cv b (m, out) with
-        | error e => simp [andThen]
-        | ok s' =>
-          have hm' := Items.sel_inv Inv cv body hb b m out s' hm hs
-          simp only [andThen]
-          rw [Chain.refines Inv cv chain hch _ _ _ _ _ hm', har]
-          cases b <;> simp [taken, andThen]
-    | Enabled =>
-      simp only [switch_en, active_cons, do_beq_en, Bool.false_and, Items.sel_false, andThen]
-      rw [Chain.refines Inv cv chain hch _ _ _ _ _ hm]
-      simp [taken, andThen]
-    | DisabledOuter =>
-      simp only [switch_do, active_cons, do_beq_en, Bool.false_and, Items.sel_false, andThen]
-      rw [Chain.refines Inv cv chain hch _ _ _ _ _ hm]
-      simp [taken, andThen]
-end
-
-def shape : Dir → Shape
-  | .ifc _ | .ifdef _ _ => .opens
-  | .elif _ => .elif
-  | .els => .els
-  | .endif => .endif
-  | _ => .other
-
-/-- a line that cannot be rejected for a reason other than nesting -/
-def CleanDir (cv : Macros → List CTok → Except CondErr Bool) : Dir → Prop
-  | .ifc c | .elif c => Total cv c
-  | .pragma .unknown => False
-  | .incl none => False
-  | .unknown => False
-  | _ => True
-
-def shapeErr : ShapeErr → Err
-  | .unmatchedElse => .chain .ElseNotMatched
-  | .unmatchedEndif => .chain .EndIfNotMatched
-  | .unterminated => .chain .ConditionChainNotFinished
-
-theorem step_len (cv) (d : Dir) (hc : CleanDir cv d) (ch : List CS) (m : Macros) (out : List (List CTok)) :
-    match shape d, ch with
-    | .opens, _ => ∃ s', step cv ⟨ch, m, out⟩ d = .ok s' ∧ s'.chain.length = ch.length + 1
-    | .elif, [] | .els, [] => step cv ⟨ch, m, out⟩ d = .error (.chain .ElseNotMatched)
-    | .elif, _ :: _ | .els, _ :: _ => ∃ s', step cv ⟨ch, m, out⟩ d = .ok s' ∧ s'.chain.length = ch.length
-    | .endif, [] => step cv ⟨ch, m, out⟩ d = .error (.chain .EndIfNotMatched)
-    | .endif, _ :: r => ∃ s', step cv ⟨ch, m, out⟩ d = .ok s' ∧ s'.chain.length = r.length
-    | .other, _ => ∃ s', step cv ⟨ch, m, out⟩ d = .ok s' ∧ s'.chain.length = ch.length := by
-  cases ha : active ch
-  · rw [step_inactive cv _ _ _ ha]
+theorem run_shape : ∀ (f : Lines) (bl : List Block) (out : List Nat), f.plain = true →
+    (match run f ⟨bl, 0⟩ out with | .ok (c', _) => Except.ok (elses c') | .error e => .error e) =
+      shapeSpec f (bl.map (·.seenElse))
+  | .nil, bl, out, _ => by simp [run, shapeSpec, elses]
+  | .cons d ds, bl, out, hp => by
+    simp only [Lines.plain, Bool.and_eq_true] at hp
     cases d with
-    | elif c => obtain ⟨b, hb⟩ := hc m trivial; cases ch <;> simp [shape, exec, hb]
-    | els => cases ch <;> simp [shape, exec]
-    | endif => cases ch <;> simp [shape, exec]
-    | pragma k => cases k <;> simp [shape]
-    | _ => simp [shape]
-  · rw [step_active cv _ _ _ ha]
-    cases d with
-    | ifc c => obtain ⟨b, hb⟩ := hc m trivial; simp [shape, exec, hb]
-    | elif c => obtain ⟨b, hb⟩ := hc m trivial; cases ch <;> simp [shape, exec, hb]
-    | els => cases ch <;> simp [shape, exec]
-    | endif => cases ch <;> simp [shape, exec]
-    | pragma k => cases k <;> simp_all [shape, exec, CleanDir]
-    | incl f => cases f <;> simp_all [shape, exec, CleanDir]
-    | unknown => simp_all [CleanDir]
-    | _ => simp [shape, exec]
-
-/-- result of a whole file as far as nesting is concerned -/
-def finish : Except Err St → Except Err Unit
-  | .ok s => if s.chain.isEmpty then .ok () else .error (.chain unfinishedErr)
-  | .error e => .error e
-
-theorem run_scan (cv) : ∀ (ds : List Dir), (∀ d ∈ ds, CleanDir cv d) → ∀ (s : St),
-    finish (run cv s ds) = (scan s.chain.length (ds.map shape)).mapError shapeErr
-  | [], _, s => by
-    cases hch : s.chain <;> simp [run, finish, scan, hch, Except.mapError, shapeErr]
-  | d :: ds, hcl, ⟨ch, m, out⟩ => by
-    have hd := hcl d (by simp)
-    have ih := run_scan cv ds (fun d hd => hcl d (by simp [hd]))
-    have hs := step_len cv d hd ch m out
-    simp only [run, List.map_cons]
-    cases hsh : shape d <;> rw [hsh] at hs
-    · obtain ⟨s', h1, h2⟩ := hs
-      simp [h1, ih, h2, scan]
-    · cases ch with
-      | nil => simp at hs; simp [hs, finish, scan, Except.mapError, shapeErr]
-      | cons t r => simp at hs; obtain ⟨s', h1, h2⟩ := hs; simp [h1, ih, h2, scan]
-    · cases ch with
-      | nil => simp at hs; simp [hs, finish, scan, Except.mapError, shapeErr]
-      | cons t r => simp at hs; obtain ⟨s', h1, h2⟩ := hs; simp [h1, ih, h2, scan]
-    · cases ch with
-      | nil => simp at hs; simp [hs, finish, scan, Except.mapError, shapeErr]
-      | cons t r => simp at hs; obtain ⟨s', h1, h2⟩ := hs; simp [h1, ih, h2, scan]
-    · obtain ⟨s', h1, h2⟩ := hs
-      simp [h1, ih, h2, scan]
-
-/-! ### sequences produced from a tree satisfy the strict C grammar check -/
-
-mutual
-theorem Item.strict : ∀ (i : Item) (st : List Bool) (rest : List Shape),
-    scanStrict st ((flattenItem i).map shape ++ rest) = scanStrict st rest
-  | .plain p, st, rest => by
-    cases p with
-    | pragma k => cases k <;> simp [flattenItem, plainDir, shape, scanStrict]
-    | _ => simp [flattenItem, plainDir, shape, scanStrict]
-  | .cond h body chain, st, rest => by
-    have hh : shape (headDir h) = .opens := by cases h <;> rfl
-    simp only [flattenItem, List.map_cons, List.map_append, List.cons_append, List.append_assoc, hh,
-      scanStrict]
-    rw [Items.strict body, Chain.strict chain]
-theorem Items.strict : ∀ (is : Items) (st : List Bool) (rest : List Shape),
-    scanStrict st ((flattenItems is).map shape ++ rest) = scanStrict st rest
-  | .nil, st, rest => by simp [flattenItems]
-  | .cons i is, st, rest => by
-    simp only [flattenItems, List.map_append, List.append_assoc]
-    rw [Item.strict i, Items.strict is]
-theorem Chain.strict : ∀ (c : Chain) (st : List Bool) (rest : List Shape),
-    scanStrict (false :: st) ((flattenChain c).map shape ++ rest) = scanStrict st rest
-  | .endif, st, rest => by simp [flattenChain, shape, scanStrict]
-  | .els body, st, rest => by
-    simp only [flattenChain, List.map_cons, List.map_append, List.cons_append, List.append_assoc, shape,
-      scanStrict]
-    rw [Items.strict body]
-    simp [scanStrict]
-  | .elif c body chain, st, rest => by
-    simp only [flattenChain, List.map_cons, List.map_append, List.cons_append, List.append_assoc, shape,
-      scanStrict]
-    rw [Items.strict body, Chain.strict chain]
-end
+    | ifD a =>
+      simp only [run, step, shapeSpec]
+      by_cases hact : Chain.isActive ⟨bl, 0⟩ = true
+      · rw [if_pos hact]; exact run_shape ds (_ :: bl) _ hp.2
+      · rw [if_neg hact]; exact run_shape ds (_ :: bl) _ hp.2
+    | elif a =>
+      cases bl with
+      | nil => simp [run, step, shapeSpec, Chain.switch]
+      | cons b rest =>
+        cases hs : b.seenElse with
+        | true => simp [run, step, shapeSpec, Chain.switch, hs]
+        | false =>
+          simp only [run, step, shapeSpec, Chain.switch, List.length_cons, Nat.not_lt_zero, if_false,
+            Nat.add_one_ne_zero, hs, Bool.false_eq_true, List.map_cons]
+          exact run_shape ds (_ :: rest) _ hp.2
+    | els =>
+      cases bl with
+      | nil => simp [run, step, shapeSpec, Chain.switch]
+      | cons b rest =>
+        cases hs : b.seenElse with
+        | true => simp [run, step, shapeSpec, Chain.switch, hs]
+        | false =>
+          simp only [run, step, shapeSpec, Chain.switch, List.length_cons, Nat.not_lt_zero, if_false,
+            Nat.add_one_ne_zero, hs, Bool.false_eq_true, List.map_cons]
+          exact run_shape ds (_ :: rest) _ hp.2
+    | endif =>
+      cases bl with
+      | nil => simp [run, step, shapeSpec, Chain.pop]
+      | cons b rest =>
+        simp only [run, step, shapeSpec, Chain.pop, List.length_cons, Nat.zero_lt_succ, if_true,
+          List.tail_cons, List.map_cons, gt_iff_lt]
+        exact run_shape ds rest _ hp.2
+    | text id =>
+      simp only [run, step, shapeSpec]
+      exact run_shape ds _ _ hp.2
+    | junk => simp [Dir.plain] at hp
+    | incl f => simp [Dir.plain] at hp
 
 end RsslVerif.Lemmas.CondChain
